@@ -13,7 +13,10 @@ META = {
              "change; entered rounds strictly increase; every signature, save and timer refers to the current round; vote targets only from "
              "the strategy's answers. Refuted on the faithful model and reproduced on the code (known findings): finalize without quorum after "
              "a committed-header response, missing precommit decision after a prevote quorum seen first, five honest histories that panic. "
-             "Not proved (decided by monitors on the correspondence runs only): at-most-once prevote/precommit decision per round.",
+             "Over ALL event histories (Properties/C08Once.v): the step never decreases within a round; the precommit decision and the "
+             "final prevote choice are requested at most once per round; consider requests classified (per larger header set / block data), "
+             "none after the prevote was signed; rounds entered strictly increase across a lifetime (no-wrap guard). Refuted with witnesses "
+             "(not yet replayed on the code): a finalize request at most once per height / per round in one lifetime.",
     "note": "Trusted: Coq kernel, translator (cross-checked through the correspondence), harness/sm and the quiescence protocol, Go channel semantics. "
             "The 100 ms blocked-send panics and the consensus-manager hand-off timing are outside the model.",
     "design_ref": "DESIGN.md 4 (C08/C02), design/C08.md",
@@ -28,6 +31,43 @@ def classify(name, evs, fl):
     return name
 
 
+ONCE_WITNESSES = {
+    101: ("finalize-request-repeated-by-every-view-after-catchup",
+          "after a round entrance answered with a committed header every view update of the new round that carries the proposed header "
+          "makes the state machine ask the driver to finalize the same (height, round, block) again (rlc.VRV keeps the view of the round left)"),
+    102: ("finalize-request-twice-per-height-after-jump-ahead-in-commit-wait",
+          "a jump-ahead delivered during commit wait (the finalize request already made) enters the next round; its view holds the precommit "
+          "quorum and beginCommit asks the driver to finalize the block a second time in the same height and lifetime"),
+}
+
+
+def run_once_witnesses(c, binary):
+    """Replays the refutation witnesses of Properties/C08Once.v (Proofs/SMOnceFin.v) on the real code."""
+    body = S.HEADER.replace("Model.SMWalk.", "Model.SMWalk Proofs.SMWitness Proofs.SMOnceFin.") + (
+        "Definition ws : list (N * list event) := [(101, w_fin_round); (102, w_fin_height)].\n"
+        "Definition rep := Eval vm_compute in\n"
+        "  map (fun w => (fst w, combine (map enc_event (snd w)) (map project (run_events (sm0 true) (snd w))))) ws.\n"
+        "Print rep.\n")
+    ok, txt = c.coq_eval("sm_once_witness_c08", body)
+    val = S.parse_coq_value(txt, "rep") if ok else None
+    if val is None:
+        c.fail_obligation("once-witness-eval", txt[-1500:])
+        return
+    traces = [w[1] for w in val]
+    impl, _ = S.run_harness(c, binary, [(1, [])] * len(traces), traces)
+    seen = []
+    for (wid, tr), im in zip(val, impl):
+        key, text = ONCE_WITNESSES[wid]
+        d = S.first_diff(tr, im)
+        if d is not None:
+            c.notes.append("witness %d (%s): implementation differs from the model at event %d" % (wid, key, d))
+            continue
+        seen.append(key)
+        c.report(key, text, {"witness": wid, "how": "bin/h_sm < replay input", "harness_input": S.harness_input(1, tr),
+                             "trace": S.render(tr, im)})
+    c.coverage["once_witnesses_reproduced"] = seen
+
+
 def main(argv):
     c = vcheck.Check("C08", argv)
     c.trusted += ["translator /verif/translate for tm/tmconsensus/math.go and tmstate/internal/tsi/step.go",
@@ -38,13 +78,15 @@ def main(argv):
                   "the strategy answers before the next request to the consensus manager is due (no 100 ms blocked-send panic)"]
     c.grep_gate()
     tok, binary = S.prepare(c)
-    proved = tok and c.prove("C08") and c.prove("C08Inv")
+    proved = tok and c.prove("C08") and c.prove("C08Inv") and c.prove("C08Once")
     if binary is None:
         c.finish()
     n, steps = (48, 40) if c.tier == "quick" else (400, 60)
     S.walked(c, "C08", binary, "c08", n, steps, CLAUSES, classify)
     S.run_scenarios(c, binary, "c08", CLAUSES, classify)
     S.run_witnesses(c, binary, "C08")
+    if proved:
+        run_once_witnesses(c, binary)
     if not proved and not c.violations:
         b = getattr(c, "broken", {"file": "?", "log": ""})
         c.fail_obligation("Properties/C08.v (%s)" % b["file"], b["log"])
